@@ -259,6 +259,8 @@ pub struct LandSpec {
     pub cliff: Option<f64>,
     /// probability that a quantised cell (other than the start's) is invalid
     pub holes: f64,
+    /// invalid cells report Some(NaN) (like an LJ state with coincident particles) instead of None
+    pub nan_holes: bool,
 }
 
 impl LandSpec {
@@ -271,6 +273,7 @@ impl LandSpec {
             .set("ladder", J::Arr(self.ladder.iter().map(|d| J::f64bits(*d)).collect()))
             .set("cliff", J::opt_f64bits(self.cliff))
             .set("holes", J::f64bits(self.holes))
+            .set("nan_holes", J::Bool(self.nan_holes))
     }
     pub fn from_json(j: &J) -> Result<LandSpec, String> {
         Ok(LandSpec {
@@ -285,10 +288,11 @@ impl LandSpec {
                 .unwrap_or_default(),
             cliff: j.get("cliff").and_then(|x| x.as_f64bits()),
             holes: j.get("holes").and_then(|x| x.as_f64bits()).unwrap_or(0.0),
+            nan_holes: j.get("nan_holes").and_then(|x| x.as_bool()).unwrap_or(false),
         })
     }
     pub fn simple(kind: &str, salt: u64) -> LandSpec {
-        LandSpec { kind: kind.into(), salt, quantum: 0.1, amp: 1.0, ladder: vec![], cliff: None, holes: 0.0 }
+        LandSpec { kind: kind.into(), salt, quantum: 0.1, amp: 1.0, ladder: vec![], cliff: None, holes: 0.0, nan_holes: false }
     }
 }
 
@@ -374,7 +378,7 @@ impl Landscape {
         if self.spec.holes > 0.0 && ch != self.start_cell_hash {
             let mut s = ch ^ 0x5555_aaaa_5555_aaaa;
             if u01(splitmix64(&mut s)) < self.spec.holes {
-                return None;
+                return if self.spec.nan_holes { Some(f64::NAN) } else { None };
             }
         }
         Some(match self.spec.kind.as_str() {
@@ -742,6 +746,7 @@ pub fn gen_land_general(rng: &mut Rng, allow_script: bool) -> LandSpec {
             ladder: vec![],
             cliff: None,
             holes: 0.0,
+            nan_holes: false,
         };
     }
     LandSpec {
@@ -753,5 +758,6 @@ pub fn gen_land_general(rng: &mut Rng, allow_script: bool) -> LandSpec {
         ladder: vec![],
         cliff: *rng.pick(&[None, None, None, Some(0.3), Some(0.05), Some(0.0)]),
         holes: *rng.pick(&[0.0, 0.0, 0.1, 0.5, 0.9]),
+        nan_holes: false,
     }
 }
